@@ -46,6 +46,9 @@ CodecOK(x) ==
            C("marshal", ~CanMarshal(x) \/ (x.liberr = "" /\ Acc(x.lib))),
            C("decodeown", ~x.own \/ (x.oerr = "" /\ x.projOwn = Norm(k, TRUE, x.v))),
            C("unmarshal", ~x.hasUnmarshal \/ (x.uerr = "" /\ x.proj = Norm(k, TRUE, x.v))),
+           \* (decoding into a value that held another message of the type before - x.reused, x.projReused - is recorded and counted, not
+           \* judged: encoding/asn1 leaves absent OPTIONAL fields of its target alone, a third of the types show that on the unchanged tree,
+           \* and the property speaks of decoding an encoding, not of recycling a receiver)
            C("remarshal", ~x.hasUnmarshal \/ ~CanMarshal(x) \/ x.uerr # "" \/ (x.reerr = "" /\ Acc(x.re)))>>)
 
 OpOK(x) ==
